@@ -17,7 +17,7 @@ RULE = ("seeded single-writer histories (length 4-14) over {append, two-append t
         "retention property, clock advance 0-3 h, open transaction (append_data done, commit/rollback later), "
         "GC(grace in {0, 1 h, 1e9 ms})} x table-location spelling {absolute, relative to cwd, ./x, trailing slash, via "
         "symlinked parent, via symlinked root, relative names d / da / data / m / meta / metadata / metadata2 / "
-        "data/x} on local, and S3 prefixes with the same name classes (with and without an environment prefix). "
+        "data/x} on local, and S3 prefixes with the same name classes incl. the absolute-looking '/data', '/metadata', '/d' (with and without an environment prefix). "
         "Oracle per collection: files removed (from the simulator's event log) are disjoint from reachable(all "
         "retained snapshots) and from files + markers of open transactions; every retained snapshot is readable "
         "afterwards; no unreachable, unprotected data/manifest file older than grace remains; the collection does "
@@ -34,7 +34,7 @@ LOCAL_SPELLINGS = ["abs", "rel", "dot", "slash", "relslash", "symparent", "symro
                    "name:d", "name:da", "name:data", "name:m", "name:meta", "name:metadata", "name:metadata2",
                    "name:data/x", "name:t"]
 S3_SPELLINGS = ["name:tbl", "name:d", "name:data", "name:m", "name:metadata", "name:metadata2", "name:data/x",
-                "name:a/b/", "name:/lead"]
+                "name:a/b/", "name:/lead", "name:/data", "name:/metadata", "name:/data/", "name:/d"]
 
 
 def gen(rng: random.Random, tier: str, idx: int) -> dict:
